@@ -210,6 +210,7 @@ SPEC_PERMUTABLE = {"bitstrings", "occupation", "correlation_matrix", "statistics
 def obs_oracle(requested: bool, names: list[str]):
     """build the MPSConfig; the reordering may stay on only if every observable is permutable. -> (tags, eff, msg)"""
     from harness import compat
+    compat.install()
     import pulser.backend as pb
     import emu_mps
     mk = _obs_makers(pb, emu_mps)
@@ -275,6 +276,104 @@ def observables_correspondence(rep: Report, rng, ncases: int) -> None:
             rep.broke(f"correspondence check_permutable_observables: requested={rq} tags={tags} model={m} impl={e}")
 
 
+# ------------------------------------------------------------------ end-to-end metamorphic search (real back-end)
+# per-atom results in [0,1]. Clean-tree spread between orders (precision=1e-10, dt=10): n=3: 5e-14; n=4: <= 7e-8
+# (n=5: 7e-7 and 2 min per case — not run). Tolerance = max(1e-6, 1e4 x spread); a bookkeeping error (a drive, a mask
+# entry or a result landing on the wrong atom) shows at the 1e-2..1 level.
+def e2e_tol(n: int) -> float:
+    return 1e-6 if n <= 3 else 1e-3
+
+
+
+def gen_e2e(rng, nmax):
+    import math
+    n = rng.randint(3, nmax)
+    pts = [(rng.uniform(0, 8 * n), rng.uniform(0, 6)) for _ in range(n)]
+    U = [[0.0] * n for _ in range(n)]
+    for i in range(n):
+        for j in range(i + 1, n):
+            U[i][j] = U[j][i] = 5420158.53 / (math.dist(pts[i], pts[j]) + 6.0) ** 6
+    steps = rng.randint(2, 4)
+    case = dict(n=n, U=U, steps=steps,
+                omega=[[rng.uniform(2, 8) for _ in range(n)] for _ in range(steps)],      # per-atom drives
+                delta=[[rng.uniform(-6, 6) for _ in range(n)] for _ in range(steps)],
+                phi=[[rng.uniform(0, 1) for _ in range(n)] for _ in range(steps)],
+                ids=[f"q{i}" for i in range(n)],
+                bad=[False] * n, site_perm=pc.rand_perm(rng, n), relabel=pc.rand_perm(rng, n))
+    if rng.random() < 0.3:
+        case["bad"][rng.randrange(n)] = True
+    return case
+
+
+def run_backend(case, order, site_perm, optimise):
+    """emu-mps on the atoms listed in `order` (a relabelling of the register), with the internal site
+    order forced to `site_perm` when the optimisation is on (any permutation is a legal optimiser answer).
+    -> {atom id: occupation}, {(id, id): correlation}, energy"""
+    import torch
+    from unittest import mock
+    from harness import compat
+    import pulser.backend as pb
+    import emu_mps.mps_backend_impl as impl_mod
+    g = lambda rows: [[r[i] for i in order] for r in rows]
+    U = [[case["U"][i][j] for j in order] for i in order]
+    ids = [case["ids"][i] for i in order]
+    tt = [10.0 * k for k in range(case["steps"] + 1)]
+    data = compat.make_sequence_data(g(case["omega"]), g(case["delta"]), g(case["phi"]), U, tt, qubit_ids=ids,
+                                     bad_atoms=[case["bad"][i] for i in order])
+    ev = [1.0]
+    cfg = compat.mps_config(observables=[pb.Occupation(evaluation_times=ev), pb.CorrelationMatrix(evaluation_times=ev),
+                                         pb.Energy(evaluation_times=ev)],
+                            optimize_qubit_ordering=optimise, dt=10, precision=1e-10)
+    with mock.patch.object(impl_mod.optimat, "minimize_bandwidth", lambda M: torch.tensor(site_perm, dtype=torch.int64)):
+        r = compat.run_mps(data, cfg)
+    ao = list(r.atom_order)
+    occ = torch.as_tensor(r.get_result("occupation", 1.0)).tolist()
+    cor = torch.as_tensor(r.get_result("correlation_matrix", 1.0)).tolist()
+    return ({a: occ[k] for k, a in enumerate(ao)},
+            {(a, b): cor[k][l] for k, a in enumerate(ao) for l, b in enumerate(ao)},
+            float(r.get_result("energy", 1.0)), ao)
+
+
+def e2e_oracle(case):
+    """C03 on one problem: reordering on/off and relabelling give the same per-atom results. Failure string or None."""
+    n = case["n"]
+    ident = list(range(n))
+    base = run_backend(case, ident, ident, False)
+    worst = 0.0
+    for name, order, sp, opt in (("optimize_qubit_ordering on", ident, case["site_perm"], True),
+                                 ("relabelled register", case["relabel"], ident, False),
+                                 ("relabelled register + ordering on", case["relabel"], case["site_perm"], True)):
+        got = run_backend(case, order, sp, opt)
+        if got[3] != [case["ids"][i] for i in order]:
+            return f"{name}: atom_order {got[3]} is not the register order", worst
+        d = max([abs(got[0][a] - base[0][a]) for a in base[0]] + [abs(got[1][k] - base[1][k]) for k in base[1]]
+                + [abs(got[2] - base[2]) / (1 + abs(base[2]))])
+        worst = max(worst, d)
+        if not d <= e2e_tol(n):
+            return f"{name}: per-atom results differ by {d:.3e} > {e2e_tol(n)}", worst
+    return None, worst
+
+
+def e2e_search(rep: Report, rng, ncases: int, nmax: int) -> None:
+    worst = 0.0
+    for _ in range(ncases):
+        case = gen_e2e(rng, nmax)
+        try:
+            msg, w = e2e_oracle(case)
+        except Exception as e:
+            msg, w = f"back-end raised {type(e).__name__}: {str(e)[:160]}", 0.0
+        worst = max(worst, w)
+        if msg:
+            rep.fail(msg, dict(kind="e2e", case=case))
+        rep.case(key=("e2e", json.dumps(case["site_perm"] + case["relabel"]), case["n"], case["steps"]),
+                 nontrivial=case["site_perm"] != list(range(case["n"])), trace=False,
+                 sample={"what": "e2e", "n": case["n"], "site_perm": case["site_perm"], "relabel": case["relabel"], "bad": case["bad"]})
+        rep.hist("e2e_n", case["n"])
+        rep.hist("e2e_dark_atom", any(case["bad"]))
+    rep.extra["e2e_worst_difference"] = worst
+    rep.extra["e2e_tolerance"] = "1e-6 (n=3), 1e-3 (n=4)"
+
+
 # ------------------------------------------------------------------ check
 def laws(rep, rng, n_cases):
     for _ in range(n_cases):
@@ -306,11 +405,12 @@ def check(rep: Report, tier: str, seed: int) -> None:
     lean_stage(rep, PROP_MODULE, AUDIT, thorough=(tier == "thorough"))
     rng = seeded(seed * 7919 + 3)
     quick = tier == "quick"
-    pc.helper_correspondence(rep, rng, 400 if quick else 20000)
+    pc.helper_correspondence(rep, rng, 300 if quick else 8000)
     laws(rep, rng, 200 if quick else 5000)
-    results_correspondence(rep, rng, 100 if quick else 4000)
+    results_correspondence(rep, rng, 80 if quick else 2000)
     observables_correspondence(rep, rng, 25 if quick else 200)
     probe_list_precision(rep)
+    e2e_search(rep, rng, 2 if quick else 30, 3 if quick else 4)
     if rep.broken and not rep.failing:
         search(rep, seed, 400 if quick else 5000)
 
@@ -363,6 +463,8 @@ def search(rep: Report, seed: int, n: int) -> None:
     sub = Report(rep.prop, rep.tier, rep.seed)
     results_correspondence(sub, rng, n)
     rep.failing += sub.failing
+    if not rep.failing:
+        e2e_search(rep, rng, max(4, n // 100), 4)
     rep.extra["search_cases"] = n
 
 
@@ -379,6 +481,8 @@ def replay(rep: Report, path: str) -> int:
                 msg = pc.helper_laws(d["p"], d["q"], [f"q{i}" for i in range(len(d["p"]))], d["s"])
             elif d["kind"] == "list_f32":
                 msg = list_precision_probe(d["p"], d["occ"])
+            elif d["kind"] == "e2e":
+                msg = e2e_oracle(d["case"])[0]
             elif d["kind"] == "obs":
                 msg = obs_oracle(d["requested"], d["names"])[2]
             elif d["kind"] == "results":
